@@ -126,7 +126,12 @@ def classify_line(text):
     if head in SEQ_SIZE:
         return 'data', SEQ_SIZE[head] * (len(toks) - 1)
     if head == 'pack':
-        return 'data', PACK_SIZE[toks[1][-1]]
+        # the documented size of a struct format AS WRITTEN: without a byte-order character it is the native one of the host
+        # (`pack L 1` is 8 bytes on a 64-bit Linux), computed here by CPython's struct itself, independently of the assembler
+        try:
+            return 'data', struct.calcsize(toks[1])
+        except struct.error:
+            return 'data', PACK_SIZE[toks[1][-1]]
     if head in ('li', 'call', 'tail'):
         return 'expansion', head
     return 'instruction', head
